@@ -4,9 +4,12 @@ from . import execsuite, gen_prog
 from .propbase import *
 
 
-def run_cli(args, stdin=b"", timeout=30):
-    p = subprocess.run([C.RRSS_BIN_DEBUG] + args, input=stdin, stdout=subprocess.PIPE, stderr=subprocess.PIPE,
-                       env=dict(os.environ, NO_COLOR="1"), timeout=timeout)
+def run_cli(args, stdin=b"", timeout=20):
+    try:
+        p = subprocess.run([C.RRSS_BIN_DEBUG] + args, input=stdin, stdout=subprocess.PIPE, stderr=subprocess.PIPE,
+                           env=dict(os.environ, NO_COLOR="1"), timeout=timeout)
+    except subprocess.TimeoutExpired:
+        return None, b"", b"<timeout>"
     return p.returncode, p.stdout, p.stderr
 
 
@@ -38,11 +41,16 @@ def run(chk):
         path = f"{work}/p{i}.rock"
         open(path, "w", encoding="utf-8").write(c["src"])
         lib = recs[i]["impl"].get("debug", "")
+        if lib in ("timeout", "crash") or recs[i].get("discarded"):
+            continue          # outside the step/size budget: not compared
         for sv in ([c.get("stdin", "")] + (stdin_variants[:1] if quick else stdin_variants)):
             if sv != c.get("stdin", ""):
                 continue
             rc, out, err = run_cli(["exec", path], sv.encode("utf-8"))
             chk.evals += 1
+            if rc is None:
+                report("rrss exec did not terminate although the library run did", {"src": c["src"], "stdin": sv})
+                continue
             st, o = execsuite.split_out(lib)
             if lib.startswith("parse-error"):
                 msg = C.unhex(lib.split(" ")[1])
@@ -79,6 +87,20 @@ def run(chk):
                 report("parse: error not on stderr", {"src": c["src"], "stdout": out[:100].decode("utf-8", "replace"), "stderr": err.decode("utf-8", "replace")[:200]})
         elif not out.decode("utf-8", "replace").startswith("Program {") or err != b"":
             report("parse: tree not printed on stdout", {"src": c["src"], "stdout": out[:100].decode("utf-8", "replace")})
+    # input that is not valid UTF-8: the CLI must behave like the library (an I/O error at the listen that reaches it)
+    prog = "Listen to X\nSay X\nListen to Y\nSay Y\nSay \"done\"\n"
+    path = f"{work}/utf8.rock"
+    open(path, "w").write(prog)
+    for raw in (b"hello\n\xff\xfe\n", b"\xc3\n", b"ok\nfine\n\xff", b"\xf0\x9f\x8e\n"):
+        line = f"(exec u runbytes {C.hx(prog)} #{raw.hex()} none none)"
+        r, _ = C.run_cases({"debug": [line]}, "C20_utf8")
+        st, o = execsuite.split_out(r["debug"]["u"])
+        rc, out, err = run_cli(["exec", path], raw)
+        chk.evals += 1
+        if o is not None and out != bytes.fromhex(o):
+            report("stdout differs from the library on input that is not valid UTF-8", {"src": prog, "stdin_hex": raw.hex(), "cli_stdout": out.decode("utf-8", "replace"), "library_stdout": bytes.fromhex(o).decode("utf-8", "replace")})
+        if st.startswith("err") != (err != b""):
+            report("error reporting differs from the library on input that is not valid UTF-8", {"src": prog, "stdin_hex": raw.hex(), "cli_stderr": err.decode("utf-8", "replace"), "library": C.decode_hex_fields(st)})
     # usage errors and missing files
     for args in (["exec", f"{work}/does-not-exist.rock"], ["lint", f"{work}/nope"], ["parse", f"{work}/nope"], ["exec"], ["frobnicate", "x"], ["exec", "a", "b"], ["--nope"]):
         rc, out, err = run_cli(args)
